@@ -49,6 +49,12 @@ Payload(i) ==
   /\ stored' = stored \cup {i}
   /\ Log([a |-> "payload", uri |-> UriSeq[i].uri, exp |-> UriSeq[i].exp, local |-> UriSeq[i].local])
 
+\* URI i is written to two datasets by ONE transaction (its first use happens twice before anything is committed)
+StoreTxn(i) ==
+  /\ known' = known \cup {UriSeq[i].exp}
+  /\ stored' = stored \cup {i}
+  /\ Log([a |-> "storetxn", uri |-> UriSeq[i].uri, exp |-> UriSeq[i].exp, local |-> UriSeq[i].local])
+
 Restart ==
   /\ hist # <<>>
   /\ IF hist = <<>> THEN FALSE ELSE hist[Len(hist)].a # "restart"
@@ -58,7 +64,7 @@ Restart ==
 Init == known = {} /\ stored = {} /\ hist = <<>>
 Next ==
   /\ Len(hist) < MaxSteps
-  /\ \/ \E i \in U : Curie(i) \/ Store(i) \/ Payload(i)
+  /\ \/ \E i \in U : Curie(i) \/ Store(i) \/ Payload(i) \/ StoreTxn(i)
      \/ Restart
 Spec == Init /\ [][Next]_nvars
 
